@@ -1,4 +1,5 @@
 import Qv.Proofs.KernelMemFront
+import Qv.Proofs.KernelMemRefineP
 /-!
 # C17 — The C annealing kernels are memory-safe on every valid call
 
@@ -15,14 +16,20 @@ whose `rand_int(rng, N)` stays below `N` (`IndexOK`; proved for the PCG32 model)
 `[]` and zero temperatures), both visiting orders, with or without initial state, and without size bounds other
 than the C types' ranges.
 
+`quso_refines` / `puso_refines` and their front-end forms (T17.3) identify, on `WF` arguments, the result of the
+checked kernels with the result of the unchecked kernel model `Qv.Kernel.annealQuso` / `annealPuso`, so the
+theorems of C11/C12 about the latter hold for the former (the driver also reports this identity on every call).
+
 PARTIAL by design: what the compiler does with real undefined behaviour, CPython's C API (reference counts,
 error indicators), the allocator and libm are outside the model; the tie of the model to the code is the
 correspondence check `harness/c17.py` (ASan+UBSan runs of the current sources).
 
-Finding (D5): `anneal_puso.c` executes `index[0] = 0` on `malloc(num_terms * sizeof(long))` also when
-`num_terms == 0`; the Python front end does not exclude that case.  `puso_mem_safe_partial` carries the
-hypothesis `1 ≤ |couplings|` the proof forces, `puso_zero_terms_out_of_bounds` is the concrete failing input,
-and `puso_mem_safe_repaired` shows that guarding that one write makes the hypothesis unnecessary.
+Finding D5 (repaired in /repo 958732b): `anneal_puso.c` used to execute `index[0] = 0` on
+`malloc(num_terms * sizeof(long))` also when `num_terms == 0`, and the Python front end does not exclude that
+case.  The model keeps both versions (`guard`): `puso_mem_safe` / `front_puso_mem_safe` are about the code as it
+is now (`if(num_terms) index[0] = 0;`) and need no hypothesis on the number of terms; the last section documents
+the code before the repair (`puso_mem_safe_partial` with the hypothesis the proof forced,
+`puso_zero_terms_out_of_bounds` = the concrete failing input, now a regression input of `harness/c17.py`).
 -/
 namespace Qv.C17
 open Qv Qv.Kernel Qv.Anneal Qv.KMem
@@ -42,29 +49,10 @@ theorem quso_mem_safe (src : Src ρ α) (h : List α) (nn nb : List Int) (J Ts :
   obtain ⟨out, e, h1, h2⟩ := cAnnealQuso_ok src h nn nb J Ts numAnneals inOrder init rng hsrc wf
   exact ⟨out, e, h1, h2⟩
 
-/-- `c_anneal_puso` (wrapper + `anneal_puso.c`, the code as it is: `guard = false`) on arguments satisfying
-`WFPuso` **and having at least one term**.  The extra hypothesis is forced by `index[0] = 0` (D5). -/
-theorem puso_mem_safe_partial (src : Src ρ α) (lenState : Int) (nc terms : List Int) (cs Ts : List α)
-    (numAnneals : Int) (inOrder : Bool) (init : List Int) (rng : ρ) (hsrc : IndexOK src lenState.toNat)
-    (wf : WFPuso lenState nc terms cs Ts numAnneals init) (hterm : 1 ≤ cs.length) :
-    ∃ out, cAnnealPuso false src lenState nc terms cs Ts numAnneals inOrder init rng = .ok out ∧
-      out.length = numAnneals.toNat ∧
-      ∀ sv ∈ out, sv.1.length = lenState.toNat ∧ ∀ x ∈ sv.1, x = 1 ∨ x = -1 := by
-  obtain ⟨out, e, h1, h2⟩ :=
-    cAnnealPuso_ok false src lenState nc terms cs Ts numAnneals inOrder init rng hsrc wf (Or.inr hterm)
-  exact ⟨out, e, h1, h2⟩
-
-/-- D5, the concrete failing input: `c_anneal_puso(3, [], [], [], [1, 1/2], 1, 1, [], seed)` — what
-`anneal_puso(PUSOMatrix whose only term cancelled)` passes — satisfies `WFPuso` but the kernel writes
-`index[0]` into a zero-length allocation. -/
-theorem puso_zero_terms_out_of_bounds :
-    WFPuso (3 : Int) [] [] ([] : List Rat) [1, 1/2] 1 [] ∧
-    cAnnealPuso false Ex.src 3 [] [] ([] : List Rat) [1, 1/2] 1 true [] 0 = .error MemErr.oob := by
-  decide +kernel
-
-/-- with the one-line repair `if(num_terms) index[0] = 0;` (`guard = true`) the kernel is safe on every
-`WFPuso` input, with or without terms -/
-theorem puso_mem_safe_repaired (src : Src ρ α) (lenState : Int) (nc terms : List Int) (cs Ts : List α)
+/-- `c_anneal_puso` (wrapper + `anneal_puso.c` as it is now, `guard = true`) on arguments satisfying `WFPuso`
+returns without a memory error — with or without terms — and returns `num_anneals` states of length `N` with
+entries `±1`. -/
+theorem puso_mem_safe (src : Src ρ α) (lenState : Int) (nc terms : List Int) (cs Ts : List α)
     (numAnneals : Int) (inOrder : Bool) (init : List Int) (rng : ρ) (hsrc : IndexOK src lenState.toNat)
     (wf : WFPuso lenState nc terms cs Ts numAnneals init) :
     ∃ out, cAnnealPuso true src lenState nc terms cs Ts numAnneals inOrder init rng = .ok out ∧
@@ -101,7 +89,7 @@ theorem front_quso_flatten_total (N : Nat) (model : Poly) (hl : ∀ kv ∈ model
 
 omit [Add α] [Mul α] [OfInt α] in
 /-- the arrays `anneal_puso` builds (`flattenPuso`) from any model with labels `< N` satisfy `WFPuso`;
-that there is a term is **not** part of it (see `front_puso_term`) -/
+whether there is a term does not matter any more (D5 repaired) -/
 theorem front_puso_wf (toNum : Rat → α) (N : Nat) (model : Poly) (hl : ∀ kv ∈ model, ∀ l ∈ kv.1, l < N)
     (hN : 1 ≤ N) (Ts : List α) (numAnneals : Int) (init : List Int)
     (hinit : init = [] ∨ (init.length = N ∧ ∀ x ∈ init, x = 1 ∨ x = -1))
@@ -110,12 +98,6 @@ theorem front_puso_wf (toNum : Rat → α) (N : Nat) (model : Poly) (hl : ∀ kv
     WFPuso (N : Int) ((flattenPuso toNum model).nc.map Int.ofNat) ((flattenPuso toNum model).terms.map Int.ofNat)
       (flattenPuso toNum model).cs Ts numAnneals init :=
   flattenPuso_wf toNum hl hN Ts numAnneals init hinit hna htot hterms hTs
-
-omit [Add α] [Mul α] [OfInt α] in
-/-- the flattened PUSO has a term as soon as the model has a non-constant key -/
-theorem front_puso_term (toNum : Rat → α) (model : Poly) (h : ∃ kv ∈ model, kv.1 ≠ []) :
-    1 ≤ (flattenPuso toNum model).cs.length :=
-  flattenPuso_has_term toNum h
 
 /-- `anneal_quso` from the front end to the kernel: whenever `prep` reaches the C call (so `num_anneals ≥ 1`,
 `N ≥ 1`, initial state relabelled) with a spin-valued initial state, and the flattening loop does not raise,
@@ -137,23 +119,98 @@ theorem front_quso_mem_safe (cfg : Cfg ρ α) (dispatch : Obj → Except Err (Na
     (by rw [hlen]; exact hsrc) wf
   exact ⟨out, e, h1⟩
 
-/-- `anneal_puso` from the front end to the kernel — with the hypothesis that the model has a non-constant
-term, which the front end does not check (D5) -/
-theorem front_puso_mem_safe_partial (cfg : Cfg ρ α) (dispatch : Obj → Except Err (Nat × Poly × List Var))
+/-- `anneal_puso` from the front end to the kernel (the code as it is now): whenever `prep` reaches the C call
+with a spin-valued initial state and a model whose labels are `< N`, the checked kernel runs without memory
+error on the arguments the front end built — also when every term of the model has cancelled -/
+theorem front_puso_mem_safe (cfg : Cfg ρ α) (dispatch : Obj → Except Err (Nat × Poly × List Var))
     (L : Obj) (P : Params ρ α) (c : Call α) (hprep : prep dispatch L P = .ok (.call c))
     (hv : ∀ d, P.init = some d → ∀ p ∈ d, p.2 = 1 ∨ p.2 = -1)
-    (hl : ∀ kv ∈ c.model, ∀ l ∈ kv.1, l < c.N) (hterm : ∃ kv ∈ c.model, kv.1 ≠ [])
+    (hl : ∀ kv ∈ c.model, ∀ l ∈ kv.1, l < c.N)
     (hsrc : IndexOK cfg.src c.N) (htot : P.numAnneals * (c.N : Int) ≤ INT_MAX)
     (hterms : ((flattenPuso cfg.toNum c.model).terms.length : Int) < INT_MAX)
     (hTs : (c.Ts.length : Int) ≤ INT_MAX) :
-    ∃ out, cAnnealPuso false cfg.src (c.N : Int) ((flattenPuso cfg.toNum c.model).nc.map Int.ofNat)
+    ∃ out, cAnnealPuso true cfg.src (c.N : Int) ((flattenPuso cfg.toNum c.model).nc.map Int.ofNat)
       ((flattenPuso cfg.toNum c.model).terms.map Int.ofNat) (flattenPuso cfg.toNum c.model).cs c.Ts
       P.numAnneals P.inOrder c.init P.rng = .ok out ∧ out.length = P.numAnneals.toNat := by
   obtain ⟨hna, hN, hinit⟩ := prep_call dispatch L P c hprep hv
   have wf := flattenPuso_wf cfg.toNum hl hN c.Ts P.numAnneals c.init hinit hna htot hterms hTs
-  obtain ⟨out, e, h1, _⟩ := cAnnealPuso_ok false cfg.src _ _ _ _ c.Ts P.numAnneals P.inOrder c.init P.rng
-    (by simpa using hsrc) wf (Or.inr (flattenPuso_has_term cfg.toNum hterm))
+  obtain ⟨out, e, h1, _⟩ := cAnnealPuso_ok true cfg.src _ _ _ _ c.Ts P.numAnneals P.inOrder c.init P.rng
+    (by simpa using hsrc) wf (Or.inl rfl)
   exact ⟨out, e, h1⟩
+
+/-! ### T17.3 — refinement: the checked kernels compute what the unchecked kernel model (C11/C12) computes -/
+
+/-- On `WF` arguments the checked-memory `c_anneal_quso` returns **exactly** the result of the unchecked kernel
+model `Kernel.annealQuso` (the model the theorems of C11/C12 are about) on the same arrays: same states, same
+values, for every number type, random source, schedule and visiting order.  (`Q.nn`, `Q.nb` are the naturals
+the front end produces; the C extension receives them as Python ints.) -/
+theorem quso_refines (src : Src ρ α) (Q : Kernel.Quso α) (Ts : List α) (numAnneals : Int) (inOrder : Bool)
+    (init : List Int) (rng : ρ) (hsrc : IndexOK src Q.h.length)
+    (wf : WFQuso Q.h (Q.nn.map Int.ofNat) (Q.nb.map Int.ofNat) Q.J Ts numAnneals init) :
+    cAnnealQuso src Q.h (Q.nn.map Int.ofNat) (Q.nb.map Int.ofNat) Q.J Ts numAnneals inOrder init rng =
+      .ok (Kernel.annealQuso src Q Q.h.length Ts inOrder init numAnneals.toNat rng) :=
+  cAnnealQuso_refines src Q Ts numAnneals inOrder init rng hsrc wf
+
+/-- the same from the front end: on the arrays `anneal_quso` builds, the checked kernel returns exactly the
+`out` that `Anneal.runQuso` (C11's model of the call) packages — so every C11/C12 statement about the results of
+the unchecked kernel holds for the memory-checked one. -/
+theorem front_quso_refines (cfg : Cfg ρ α) (dispatch : Obj → Except Err (Nat × Poly × List Var)) (L : Obj)
+    (P : Params ρ α) (c : Call α) (hprep : prep dispatch L P = .ok (.call c))
+    (hv : ∀ d, P.init = some d → ∀ p ∈ d, p.2 = 1 ∨ p.2 = -1)
+    (h : List Rat) (adj : List (List (Nat × Rat))) (hf : flattenQuso c.N c.model = .ok (h, adj))
+    (hsrc : IndexOK cfg.src c.N) (htot : P.numAnneals * (c.N : Int) ≤ INT_MAX)
+    (hJ : (adj.flatten.length : Int) ≤ INT_MAX) (hTs : (c.Ts.length : Int) ≤ INT_MAX) :
+    cAnnealQuso cfg.src (qusoArgs cfg.toNum h adj).h ((qusoArgs cfg.toNum h adj).nn.map Int.ofNat)
+      ((qusoArgs cfg.toNum h adj).nb.map Int.ofNat) (qusoArgs cfg.toNum h adj).J c.Ts P.numAnneals P.inOrder
+      c.init P.rng =
+    .ok (Kernel.annealQuso cfg.src (qusoArgs cfg.toNum h adj) c.N c.Ts P.inOrder c.init P.numAnneals.toNat P.rng) := by
+  obtain ⟨hna, hN, hinit⟩ := prep_call dispatch L P c hprep hv
+  have wf := qusoArgs_wf cfg.toNum hf hN c.Ts P.numAnneals c.init hinit hna htot hJ hTs
+  have hlen : (qusoArgs cfg.toNum h adj).h.length = c.N := by
+    simp [qusoArgs, (flattenQuso_flat hf).1]
+  have := cAnnealQuso_refines cfg.src (qusoArgs cfg.toNum h adj) c.Ts P.numAnneals P.inOrder c.init P.rng
+    (by rw [hlen]; exact hsrc) wf
+  rw [hlen] at this
+  exact this
+
+/-- non-vacuity: the docstring example, checked = unchecked, evaluated -/
+example : cAnnealQuso Ex.src ([1, 0, 0] : List Rat) [1, 2, 1] [1, 0, 2, 1] [-1, -1, 2, 2] [2, 1, 0] 2 false
+    [1, -1, 1] 0 = .ok (Kernel.annealQuso Ex.src ⟨[1, 0, 0], [1, 2, 1], [1, 0, 2, 1], [-1, -1, 2, 2]⟩ 3 [2, 1, 0]
+      false [1, -1, 1] 2 0) := by decide +kernel
+
+/-- The same for PUSO (the code as it is now): on `WF` arguments the checked `c_anneal_puso` returns **exactly**
+the result of `Kernel.annealPuso` on the same arrays — including the construction of `index` and of the
+`subgraphs` rows by `realloc`. -/
+theorem puso_refines (src : Src ρ α) (N : Nat) (P : Kernel.Puso α) (Ts : List α) (numAnneals : Int)
+    (inOrder : Bool) (init : List Int) (rng : ρ) (hsrc : IndexOK src N)
+    (wf : WFPuso (N : Int) (P.nc.map Int.ofNat) (P.terms.map Int.ofNat) P.cs Ts numAnneals init) :
+    cAnnealPuso true src (N : Int) (P.nc.map Int.ofNat) (P.terms.map Int.ofNat) P.cs Ts numAnneals inOrder init rng =
+      .ok (Kernel.annealPuso src P N Ts inOrder init numAnneals.toNat rng) :=
+  cAnnealPuso_refines src N P Ts numAnneals inOrder init rng hsrc wf
+
+/-- from the front end: on the arrays `anneal_puso` builds, the checked kernel returns exactly the `out` that
+`Anneal.runPuso` (C11's model of the call) packages -/
+theorem front_puso_refines (cfg : Cfg ρ α) (dispatch : Obj → Except Err (Nat × Poly × List Var)) (L : Obj)
+    (P : Params ρ α) (c : Call α) (hprep : prep dispatch L P = .ok (.call c))
+    (hv : ∀ d, P.init = some d → ∀ p ∈ d, p.2 = 1 ∨ p.2 = -1)
+    (hl : ∀ kv ∈ c.model, ∀ l ∈ kv.1, l < c.N)
+    (hsrc : IndexOK cfg.src c.N) (htot : P.numAnneals * (c.N : Int) ≤ INT_MAX)
+    (hterms : ((flattenPuso cfg.toNum c.model).terms.length : Int) < INT_MAX)
+    (hTs : (c.Ts.length : Int) ≤ INT_MAX) :
+    cAnnealPuso true cfg.src (c.N : Int) ((flattenPuso cfg.toNum c.model).nc.map Int.ofNat)
+      ((flattenPuso cfg.toNum c.model).terms.map Int.ofNat) (flattenPuso cfg.toNum c.model).cs c.Ts
+      P.numAnneals P.inOrder c.init P.rng =
+    .ok (Kernel.annealPuso cfg.src (flattenPuso cfg.toNum c.model) c.N c.Ts P.inOrder c.init P.numAnneals.toNat
+      P.rng) := by
+  obtain ⟨hna, hN, hinit⟩ := prep_call dispatch L P c hprep hv
+  have wf := flattenPuso_wf cfg.toNum hl hN c.Ts P.numAnneals c.init hinit hna htot hterms hTs
+  exact cAnnealPuso_refines cfg.src c.N (flattenPuso cfg.toNum c.model) c.Ts P.numAnneals P.inOrder c.init P.rng
+    hsrc wf
+
+/-- non-vacuity: the docstring example, checked = unchecked, evaluated -/
+example : cAnnealPuso true Ex.src 4 [2, 3, 1] [0, 1, 1, 2, 3, 2] ([1, -1, 3] : List Rat) [2, 1, 0] 2 false [] 0 =
+    .ok (Kernel.annealPuso Ex.src ⟨[2, 3, 1], [0, 1, 1, 2, 3, 2], [1, -1, 3]⟩ 4 [2, 1, 0] false [] 2 0) := by
+  decide +kernel
 
 /-! ### the hypotheses are satisfiable: concrete instances -/
 
@@ -176,9 +233,10 @@ example : cAnnealQuso Ex.src ([] : List Rat) [] [] [] [1] 1 true [] 0 = .error M
 
 /-- the docstring example of `c_anneal_puso`: `z0 z1 - z1 z2 z3 + 3 z2` -/
 example : WFPuso (4 : Int) [2, 3, 1] [0, 1, 1, 2, 3, 2] ([1, -1, 3] : List Rat) [2, 1, 0] 2 [] := by decide +kernel
-example : (cAnnealPuso false Ex.src 4 [2, 3, 1] [0, 1, 1, 2, 3, 2] ([1, -1, 3] : List Rat) [2, 1, 0] 2 false []
+example : (cAnnealPuso true Ex.src 4 [2, 3, 1] [0, 1, 1, 2, 3, 2] ([1, -1, 3] : List Rat) [2, 1, 0] 2 false []
     0).toOption.map List.length = some 2 := by decide +kernel
-/-- the repaired kernel on the D5 input returns its state -/
+/-- no term at all (every term of the model cancelled): inside `WF`, and the kernel returns its state -/
+example : WFPuso (3 : Int) [] [] ([] : List Rat) [1, 1/2] 1 [] := by decide +kernel
 example : (cAnnealPuso true Ex.src 3 [] [] ([] : List Rat) [1, 1/2] 1 true [] 0).toOption.map List.length
     = some 1 := by decide +kernel
 
@@ -187,5 +245,34 @@ example : (prep (ρ := Nat) (α := Rat) dispatchQuso Ex.L (Ex.P false none)).toO
   decide +kernel
 example : (flattenQuso 3 Ex.L.terms).toOption.isSome = true := by decide +kernel
 example : ∃ kv ∈ Ex.H.terms, kv.1 ≠ [] := ⟨([0, 1, 2], 1), by simp [Ex.H], by simp⟩
+
+/-! ### the code before the repair of D5 (`guard = false`) — documentation of the defect -/
+
+/-- BEFORE 958732b: `c_anneal_puso` with `index[0] = 0;` unconditional needed **at least one term**; the
+hypothesis `hterm` is the one the proof forced (D5). -/
+theorem puso_mem_safe_partial (src : Src ρ α) (lenState : Int) (nc terms : List Int) (cs Ts : List α)
+    (numAnneals : Int) (inOrder : Bool) (init : List Int) (rng : ρ) (hsrc : IndexOK src lenState.toNat)
+    (wf : WFPuso lenState nc terms cs Ts numAnneals init) (hterm : 1 ≤ cs.length) :
+    ∃ out, cAnnealPuso false src lenState nc terms cs Ts numAnneals inOrder init rng = .ok out ∧
+      out.length = numAnneals.toNat ∧
+      ∀ sv ∈ out, sv.1.length = lenState.toNat ∧ ∀ x ∈ sv.1, x = 1 ∨ x = -1 := by
+  obtain ⟨out, e, h1, h2⟩ :=
+    cAnnealPuso_ok false src lenState nc terms cs Ts numAnneals inOrder init rng hsrc wf (Or.inr hterm)
+  exact ⟨out, e, h1, h2⟩
+
+/-- BEFORE 958732b, the concrete failing input: `c_anneal_puso(3, [], [], [], [1, 1/2], 1, 1, [], seed)` — what
+`anneal_puso(PUSOMatrix whose only term cancelled)` passes — satisfies `WFPuso`, but the old kernel wrote
+`index[0]` into a zero-length allocation; the kernel as it is now returns on the same input. -/
+theorem puso_zero_terms_out_of_bounds :
+    WFPuso (3 : Int) [] [] ([] : List Rat) [1, 1/2] 1 [] ∧
+    cAnnealPuso false Ex.src 3 [] [] ([] : List Rat) [1, 1/2] 1 true [] 0 = .error MemErr.oob ∧
+    (cAnnealPuso true Ex.src 3 [] [] ([] : List Rat) [1, 1/2] 1 true [] 0).toOption.map List.length = some 1 := by
+  decide +kernel
+
+omit [Add α] [Mul α] [OfInt α] in
+/-- BEFORE 958732b the front end had to provide a term; it does so exactly when the model has a non-constant key -/
+theorem front_puso_term (toNum : Rat → α) (model : Poly) (h : ∃ kv ∈ model, kv.1 ≠ []) :
+    1 ≤ (flattenPuso toNum model).cs.length :=
+  flattenPuso_has_term toNum h
 
 end Qv.C17
